@@ -63,7 +63,11 @@ PLAN = dict(
                 "run satisfies pre_trace, so no-use-after-release, no-double-release, classification/no-leak hold in every reachable configuration "
                 "of every program. x86-64 refinement theorems on the ISA semantics for share_block_n, erase_block, release_block, acquire_block (3 "
                 "cases) and now store (let/create) and load (switch/invoke) for any number of fields (block chains), registers and spill slots, "
-                "both load modes (Proof/X86Mem*.v). Link still checked rather than proved: that a statement's real code performs exactly the listed "
+                "both load modes (Proof/X86Mem*.v). The SAME refinement theorems for the AArch64 allocator code (C09_a64_*, Proof/A64Mem*.v, round 3: "
+                "share/erase/release, acquire_block in all three cases into a register or a spill slot, a_store = alloc_object and a_load = "
+                "load_object for any number of fields, block pointers in spill slots with the X10 evacuation), the abstract side literally "
+                "shared; the two seeded AArch64 defects (acquire_block into a spill slot clearing the wrong header; register_freed not reset) "
+                "refute these statements on concrete states (C09_a64_seeded_defect1/2_refuted). Link still checked rather than proved for x86-64 and RISC-V (proved for x86-64 in C06 and for AArch64 in C07): that a statement's real code performs exactly the listed "
                 "operations (heaplock-x86 lockstep at every boundary); heapops-x86 and heap-x86 as before",
     assumptions=["Model/Heap.v abstracts memory.rs block-granularly; share_block_n, erase_block, release_block, acquire_block, store and load are proved to refine it "
                  "on the x86-64 ISA model under hypotheses (operands are blocks of the heap region, counts do not wrap) that are not yet derived from the invariant",
@@ -71,7 +75,7 @@ PLAN = dict(
                  "checked in lockstep (heaplock-x86), not proved (no simulation of code_statement)",
                  "program-level theorems assume lin_check_prog (C05 proves it of the linearizer's output for prog_ok input) and an entry point taking integers",
                  "Sem/X86Sem.v, Sem/A64Sem.v, Sem/RVSem.v, Sem/AxSem.v, Sem/HeapCheck.v",
-                 "AArch64 / RISC-V allocator code: covered by execution with the invariant at every boundary (steps heap-a64, heap-rv and families), no refinement proof; on RISC-V the entry state (X2 = heap base, X3 = one block further) and the 64-bit reading of LW/SW are those of C08"],
+                 "AArch64 allocator code: refinement theorems C09_a64_* (hypotheses as for x86-64 plus: tested headers are 64-bit values) and execution with the invariant at every boundary (heap-a64 and families); RISC-V allocator code: covered by execution with the invariant at every boundary (heap-rv and families), no refinement proof to Model/Heap.v; on RISC-V the entry state (X2 = heap base, X3 = one block further) and the 64-bit reading of LW/SW are those of C08"],
     trusted=["coq/Sem/HeapCheck.v (executable invariant)", "coq/Sem/X86Sem.v", "coq/Sem/A64Sem.v", "coq/Sem/RVSem.v", "coq/Sem/HeapLock.v, Sem/X86Heap.v, Sem/A64Heap.v, Sem/RVHeap.v (lockstep runners)", "coq/Sem/AxSem.v + Sem/AxTrace.v (roots via lockstep)",
              "coq/Model/RunHeapOps.v (lockstep driver of heapops-x86), harness/src/cmd_heapops.rs (generator)",
              "coq/Sem/X86HeapLock.v + coq/Model/RunHeapLock.v (lockstep driver of heaplock-x86)",
